@@ -137,7 +137,7 @@ fn run_v<V: VringT<GM<()>> + Clone + Send + Sync + 'static>(sim: &Sim, _cfg: &Ru
                     let a = 0x1000 + t.draw(8) * 0x10;
                     // rings do not share their used ring
                     let u = 0x2000 + r as u64 * 0x6000 + t.draw(4) * 0x1000 + t.draw(4) * 4;
-                    Op::SetAddr(r, d, a, u, t.lattice32() as u16, t.draw(2) as usize)
+                    Op::SetAddr(r, d, a, u, t.lattice32() as u16, if t.chance(1, 3) { t.draw(8) } else { t.draw(2) } as usize)
                 }
                 17 => Op::AddrOutside(r, t.draw(3) as u8),
                 18 => Op::DropCall(r),
@@ -307,24 +307,32 @@ fn run_v<V: VringT<GM<()>> + Clone + Send + Sync + 'static>(sim: &Sim, _cfg: &Ru
                 m[*r].next_avail = *n;
             }
             Op::SetAddr(r, d, a, u, used_idx, k) => {
+                // bit 0: region of the used ring; bits 1 and 2: descriptor table / available ring
+                // in the other region (the three addresses are translated one by one)
+                let ku = *k & 1;
+                let kd = if *k & 2 != 0 { 1 - ku } else { ku };
+                let ka = if *k & 4 != 0 { 1 - ku } else { ku };
+                if kd != ku || ka != ku {
+                    sim.probe("ring_parts_in_different_regions");
+                }
                 // the guest has written its used index before the address is installed
-                pool.write(&table[*k], *u + 2, &used_idx.to_le_bytes());
+                pool.write(&table[ku], *u + 2, &used_idx.to_le_bytes());
                 let cd = VringConfigData {
                     queue_max_size: max_q as u16,
                     queue_size: m[*r].size,
                     flags: 0,
-                    desc_table_addr: table[*k].uva + d,
-                    used_ring_addr: table[*k].uva + u,
-                    avail_ring_addr: table[*k].uva + a,
+                    desc_table_addr: table[kd].uva + d,
+                    used_ring_addr: table[ku].uva + u,
+                    avail_ring_addr: table[ka].uva + a,
                     log_addr: None,
                 };
                 if let Err(e) = vmm.fe.set_vring_addr(*r, &cd) {
                     viol("control_message_failed", "SET_VRING_ADDR".into(), format!("step {step} {op:?}: {e:?}"));
                 }
-                m[*r].desc = table[*k].gpa + d;
-                m[*r].avail = table[*k].gpa + a;
-                m[*r].used = table[*k].gpa + u;
-                m[*r].reg = *k;
+                m[*r].desc = table[kd].gpa + d;
+                m[*r].avail = table[ka].gpa + a;
+                m[*r].used = table[ku].gpa + u;
+                m[*r].reg = ku;
                 m[*r].next_used = *used_idx;
                 m[*r].addr_table = table_gen;
             }
